@@ -192,8 +192,6 @@ def _reach_bool(body, start, removed_edges=()):
         e = dict(env)
         for s in body.blocks[b]['s']:
             if s['k'] != 'assign' or s['lhs'].get('p'):
-                if s['k'] == 'assign':
-                    pass
                 continue
             l = s['lhs']['l']
             rv = s['rv']
@@ -368,8 +366,7 @@ def r3(cx):
             if ok:
                 # the options are read through a borrow taken in the same iteration
                 borrow = Q.find_calls(body, ['core::cell::RefCell::<T>::borrow'])
-                ok = any(body.dominates(bb, src_b) and _in_cycle_avoiding(body, bb, ()) for bb, _ in borrow
-                         for src_b in [b])
+                ok = any(body.dominates(bb, b) and _in_cycle_avoiding(body, bb, ()) for bb, _ in borrow)
         if ok:
             good_set.append(b)
         else:
@@ -385,8 +382,6 @@ def r3(cx):
     for b, t in run:
         if not body.dominates(pb, b):
             cx.violation(LOOP, 'run-before-parse', 'run_command is not dominated by command_line', loc=body.loc(t))
-        src = Q.value_source(body, du, t['a'][1])
-        nm = Q.operand_name(body, du, t['a'][1])
     # the parsed Ok(Some(command)) is executed before parsing again: from the Some edge every path to command_line passes run_command
     def some_edge(org, lab):
         return org['k'] == 'discr' and lab == ('variant', 'Some') and 'List' in org['ty']
@@ -453,8 +448,6 @@ def r4(cx):
             for i, t in b.calls():
                 if 'RunReadEvalLoop' in (t['f'].get('ga') or ''):
                     hit = True
-            for blk, j, s in b.stmts():
-                pass
         cx.site('%s obtains RunReadEvalLoop: %s' % (root, hit))
         if not hit:
             cx.violation(root, 'no-read-eval-loop', '%s does not run its input through the read-eval loop (RunReadEvalLoop)' % root,
